@@ -235,6 +235,53 @@ CHECKS = {
         "exhaustive": {"quick": True, "thorough": True},
         "assumptions": [],
     },
+    "C18": {
+        "title": "serial transfers appear on standard output in order; nothing else does",
+        "level": "exploration",
+        "rule": "cases = generated programs issuing arbitrary SB/SC write sequences (LDH, LD (a16), LD (C), LD (HL)) from ROM (translated in jit builds), work RAM and high RAM, "
+                "and structured programs with handlers/HALT/DMA/bank switches; file descriptor 1 of the worker is captured and must equal, byte for byte, the SB value at each SC "
+                "write with bit 7 (from the hook-H1 log); jit build: translation-cache pressure without serial writes must leave stdout empty; end to end: the repository's own "
+                "binaries (hooks off, jit on and off) must print exactly the loader line plus the serial bytes. distinct_nontrivial = distinct programs",
+        "phases": [
+            {"variant": "interp-dbg", "monitor": "c18", "shards": 16, "also_build": ["repo-bin", "repo-bin-jit"],
+             "env": {"GBV_REPO_BIN": "{repo_bin}", "GBV_REPO_BIN_JIT": "{repo_bin_jit}"}},
+            {"variant": "jit-dbg", "monitor": "c18", "shards": 16, "args": {"noreal": 1}},
+        ],
+        "floors": {"quick": {"evaluations": 500, "sc-writes-with-bit7": 5_000, "sc-writes-without-bit7": 1_000, "runs-of-the-real-binaries": 30, "cache-pressure:blocks-translated": 5_000},
+                   "thorough": {"evaluations": 3_000}},
+        "exhaustive": {"quick": False, "thorough": False},
+        "assumptions": ["the end-to-end part waits until the binary's output has been quiet for 150 ms before stopping it (wall clock only bounds the wait; a slow machine can only make the run longer)"],
+    },
+    "C19": {
+        "title": "ROM files validated by header checksum, sized from the header tables, rejected cleanly",
+        "level": "fault_enumeration",
+        "rule": "cases = (a) complete files with random header bytes, exhaustive over the checksum byte, the type byte and both size bytes: valid_checksum / ROM size / RAM size vs the "
+                "header tables; (b) files of 0, 0xFF, 0x100, 0x14F, 0x150, declared-4097, declared-4096, declared-1, declared, declared+1, declared+4096 bytes x good/corrupt checksum x "
+                "cartridge types x ROM sizes, each loaded in an isolated child that then touches the first, middle and last declared ROM byte (exit status is the oracle: accepted, "
+                "rejected, controlled panic, or fault); (c) a sample of the same files through the repository's own binary. distinct_nontrivial = distinct (part, byte value) and (type, size) units",
+        "phases": [
+            {"variant": "interp-dbg", "monitor": "c19", "shards": 16, "also_build": ["repo-bin"], "env": {"GBV_REPO_BIN": "{repo_bin}"}},
+        ],
+        "floors": {"quick": {"evaluations": 5_000, "headers-decoded": 4_000, "files-loaded-in-isolation": 900, "files-accepted": 50, "files-rejected": 500, "runs-of-the-real-binary": 100},
+                   "thorough": {"evaluations": 40_000}},
+        "exhaustive": {"quick": False, "thorough": False},
+        "assumptions": ["a panic with a message at load time (exit status 101) counts as controlled termination; a signal never does",
+                        "undocumented size codes are unspecified and not compared"],
+    },
+    "C20": {
+        "title": "debugger command parsing is total and exact; disassembly tiles instruction sequences",
+        "level": "exploration",
+        "rule": "cases = all 65536 addresses in 11 spellings (decimal, zero padded, 0x-hex lower/upper/padded, ASCII and Unicode whitespace) through parse_address and inside commands; "
+                "out-of-range and malformed spellings (must be None); every letter-case pattern of every command word with whitespace decorations; random Unicode lines (must return); "
+                "random sequences of complete instructions (all 512 encodings, starts near 0xFFFF) through disassemble(): count, wrapping addresses, byte groups and lengths "
+                "vs the reference length table and decoder::decode, via the Display rendering. distinct_nontrivial = distinct units (address pages, words, line chunks, sequence chunks)",
+        "phases": [{"variant": "interp-dbg", "monitor": "c20", "shards": 16}],
+        "floors": {"quick": {"evaluations": 1_000_000, "address-spellings-parsed": 700_000, "command-lines": 1_000, "unicode-lines": 150_000, "instruction-sequences-tiled": 30_000,
+                             "malformed-or-out-of-range-rejected": 2_000},
+                   "thorough": {"evaluations": 5_000_000}},
+        "exhaustive": {"quick": False, "thorough": False},
+        "assumptions": ["a leading '+' and an upper-case 0X prefix are left unspecified"],
+    },
 }
 
 # properties not claimed (with reason); everything else is in CHECKS
